@@ -1,7 +1,7 @@
 """C03 code -> spec: record real executions, validate them with Trace_Alignment.tla.
 
 A seeded random driver builds random initial alignments (1-3 rows x 0-6 columns over
-DNA / RNA / protein symbols incl. every degenerate symbol and gaps), picks a class
+DNA / RNA / protein symbols incl. every degenerate symbol, gaps and the missing-data symbol '?'), picks a class
 (Alignment / ArrayAlignment), and applies random operations with ANY valid arguments
 (not only the small argument families TLC enumerates for the spec -> code direction),
 continuing on whatever object the real code returned, for up to `depth` operations.
@@ -41,13 +41,14 @@ def random_initial(rng):
     nr = rng.choice([1, 2, 2, 3, 3])
     nc = rng.choice([0, 1, 2, 3, 4, 4, 5, 5, 6, 6])
     pg, pd = rng.choice([(0.2, 0.1), (0.4, 0.15), (0.6, 0.1), (0.0, 0.3)])
+    pm = rng.choice([0.0, 0.15, 0.3])  # the missing-data symbol '?' (in moltype.gaps, not the gap character)
     canon, degen = SYMS[mol]
     rows = []
     for r in range(nr):
         chars = []
         for _ in range(nc):
             x = rng.random()
-            chars.append("-" if x < pg else rng.choice(degen) if x < pg + pd else rng.choice(canon))
+            chars.append("-" if x < pg else rng.choice(degen) if x < pg + pd else "?" if x < pg + pd + pm else rng.choice(canon))
         rows.append([B.NAMES[r], chars])
     return {"kind": "aln", "mol": mol, "rows": rows}
 
